@@ -256,12 +256,13 @@ theorem attr_loop_text (fmt : String) (skip : List String) (key : Str)
     simp [giText]
 
 /-- **reference_attrs_dropped** — the skip lists of the CURRENT source (generated), pinned: of a reference gene `gene_id`,
-    `ID`, `level`, `Parent` are not copied; of a transcript additionally `transcript_id` and `exons`; the exon list is used
+    `ID`, `level`, `Parent` are not copied; of a transcript additionally `transcript_id`, `exons` and (since fix 9e1d6f2, C18)
+    `Canonical`; the exon list is used
     only to decide whether a feature line gets the transcript's text.  `gene_id` / `transcript_id` are re-emitted by the
     line formats; `level` and `ID`/`Parent` are lost; `exons` is recomputed. -/
 theorem reference_attrs_dropped :
     gi_gene_attr_skip = ["gene_id", "ID", "level", "Parent"] ∧
-    gi_transcript_attr_skip = ["transcript_id", "gene_id", "ID", "level", "exons", "Parent"] ∧
+    gi_transcript_attr_skip = ["transcript_id", "gene_id", "ID", "level", "exons", "Canonical", "Parent"] ∧
     gi_exon_attr_skip = ["transcript_id", "gene_id", "ID", "Parent", "level", "exon_id", "exon", "exon_number"] ∧
     gtf_default_source = "IsoQuant" ∧ tm_default_source = "IsoQuant" ∧ gtf_exons_key = "exons" ∧
     gtf_additional_keys = ["Canonical", "alternatives", "exons", "similar_reference_id"] := by decide +kernel
